@@ -19,7 +19,7 @@ func init() {
 	register(&CheckDef{
 		ID:    "C11",
 		Level: "exploration",
-		Rule: "every ordered mix of <=3 (quick) / <=4 (thorough) tokens, each slot drawn from: named with automatic number (plain / tagged), named with explicit number from {1,2,3,43,97,257,1000}, named declared only by %left, named declared twice (%token <t> X and %token X n, n large or small), named introduced by %left and numbered by a later %token line, character literal from {'+','a','{'} declared by %token / only by %left / only used in a rule; explicit numbers pairwise distinct and distinct from the literal codes present; in-process: every terminal's code (literal = character code, explicit kept, all distinct, none -1); generated Go and TypeScript (every mix in-process, a fixed stride of them compiled/loaded): `const NAME = n` lines and translate(c) evaluated for every c in [-2, max+2]; " +
+		Rule: "every ordered mix of <=3 (quick) / <=4 (thorough) tokens, each slot drawn from: named with automatic number (plain / tagged), named with explicit number from {1,2,3,43,97,257,1000,-1 (an alias of the end marker)}, named declared only by %left, named declared twice (%token <t> X and %token X n, n large or small), named introduced by %left and numbered by a later %token line, character literal from {'+','a','{'} declared by %token / only by %left / only used in a rule; explicit numbers pairwise distinct and distinct from the literal codes present; in-process: every terminal's code (literal = character code, explicit kept, all distinct, none -1); generated Go and TypeScript (every mix in-process, a fixed stride of them compiled/loaded): `const NAME = n` lines and translate(c) evaluated for every c in [-2, max+2]; " +
 			"non-trivial = mix with at least two tokens; distinct = distinct mixes",
 		Assumptions: []string{
 			"the proviso of the statement: the user's explicit numbers are distinct from each other and from the codes of the literals used",
@@ -46,11 +46,12 @@ type c11Case struct {
 	// OneLine: every token of the mix that is introduced by a precedence
 	// line shares ONE %left line (literals and names mixed, in slot order)
 	OneLine bool `json:"one_line,omitempty"`
+	aliases []string
 }
 
 func c11Menu() []tokSlot {
 	m := []tokSlot{{Kind: "auto"}, {Kind: "tagged"}, {Kind: "preconly"}, {Kind: "twice", Num: 300}, {Kind: "twice", Num: 4}, {Kind: "precthennum", Num: 5}}
-	for _, n := range []int{1, 2, 3, 43, 97, 257, 1000} {
+	for _, n := range []int{1, 2, 3, 43, 97, 257, 1000, -1} {
 		m = append(m, tokSlot{Kind: "num", Num: n})
 	}
 	for _, c := range []byte{'+', 'a', '{'} {
@@ -94,6 +95,7 @@ func (c *c11Case) spec() (*gram.Spec, map[string]int, []string) {
 	s := &gram.Spec{Start: "S", HasUnion: true, Union: " v int "}
 	want := map[string]int{}
 	var order []string
+	var aliases []string
 	var later []gram.TokDecl
 	rule := gram.Rule{L: "S"}
 	for i, sl := range c.Slots {
@@ -109,6 +111,11 @@ func (c *c11Case) spec() (*gram.Spec, map[string]int, []string) {
 		case "num":
 			s.Tokens = append(s.Tokens, gram.TokDecl{Name: name, Num: sl.Num})
 			want[name] = sl.Num
+			if sl.Num == -1 {
+				// an alias of the end marker (as `%token EOF -1` in examples/e.y): a constant, not a grammar symbol
+				aliases = append(aliases, name)
+				continue
+			}
 		case "twice":
 			n := sl.Num
 			if n >= 100 {
@@ -148,6 +155,10 @@ func (c *c11Case) spec() (*gram.Spec, map[string]int, []string) {
 	}
 	s.Rules = []gram.Rule{rule}
 	s.LateTokens = later
+	if len(rule.R) == 0 {
+		s.Rules[0].R = nil
+	}
+	c.aliases = aliases
 	return s, want, order
 }
 
@@ -381,6 +392,13 @@ func c11Compile(w *Worker, cases []*c11Case, name string) {
 				return
 			}
 			got[m[1]] = n
+		}
+		for _, name := range e.c.aliases {
+			if g, ok := got[name]; !ok || g != -1 {
+				fail(e, "constant", variant, fmt.Sprintf("token %s is declared with number -1 but the file defines %v (present=%v)", name, g, ok))
+				return
+			}
+			delete(got, name)
 		}
 		for name, code := range e.codes {
 			if g, ok := got[name]; !ok || g != code {
